@@ -576,6 +576,7 @@ func (d *c10Drv) scSerialize(full bool, nRandom int) {
 		}
 		d.writeTo(id)
 		d.domainFields(id)
+		d.tables(id)
 	}
 	// an element is cut by a piece boundary: the input class of candidate defect F15
 	cuts := func(bounds []int) bool {
@@ -614,6 +615,14 @@ func (d *c10Drv) scSerialize(full bool, nRandom int) {
 		// one piece, into a fresh domain and into a used one (a domain of another size and the opposite precompute mode)
 		read(5, stream, []int{SL}, true, true)
 		d.newDomain(5, uint64(1)<<uint((s.logn+2)%7), nil, !s.pre)
+		read(5, stream, []int{SL}, false, true)
+		// ... and into a used domain of the SAME size and precompute mode but with the other coset shift: tables that are
+		// not serialised must be rebuilt from what was read, not kept
+		var other *big.Int
+		if !s.shift {
+			other = d.randNonZeroRaw()
+		}
+		d.newDomain(5, uint64(1)<<uint(s.logn), other, s.pre)
 		read(5, stream, []int{SL}, false, true)
 		if si < 2 && full {
 			for c := 1; c < SL; c++ {
